@@ -22,13 +22,9 @@ func _evalProxyLiteral(
 	fObj object.PanObject,
 	proxy object.PanObject,
 ) object.PanObject {
-	// TODO: duck typing (allow all objs with `call` prop)
-	f, ok := object.TraceProtoOfFunc(fObj)
-	if !ok {
-		return object.NewTypeErr("literal call must be func")
-	}
-
-	args := []object.PanObject{f}
+	// NOTE: fObj is passed as it is: the proxy calls it by `v.^f`, which handles
+	// funcs, built-in funcs and callable objs (and raises TypeErr inside the proxy otherwise)
+	args := []object.PanObject{fObj}
 	kwargs := object.EmptyPanObjPtr()
 	ret := evalCall(env, recv, proxy, args, kwargs)
 	if err, ok := ret.(*object.PanErr); ok {
